@@ -533,6 +533,8 @@ class FileIndex(Index):
                     if (set(r.segment().deleted_docs())
                         == set(segment.deleted_docs())):
                         del reusable[segment]
+                        # The recycled reader now represents this generation
+                        r._gen = generation
                         return r
 
                 return SegmentReader(storage, schema, segment,
